@@ -121,8 +121,8 @@ Representable(para) ==
           /\ LET ls == ValueLines(ValOf(para, para.order[k])) IN
              /\ \A j \in 1..Len(ls) : LineOK(ls[j])
              /\ \A j \in 2..Len(ls) : ls[j] # <<DOT>>          \* " ." means "empty line"
-             /\ (ls[1] = <<>> \/ ls[1][1] \notin SpaceSet \ BlankSet)    \* (an indented first line is fine: it is
-                                                                    \*  written on the line after the field name)
+             \* (a first line that begins with white space of any kind is fine: it is written on the
+             \*  line after the field name)
 \* a value whose first line is empty but which has more lines is written as
 \* "Name:\n line" and read back without the empty line: by the convention above
 \* its line count is not preserved, so equality is not demanded for it
@@ -147,7 +147,7 @@ RefReadsBackAs(bytes, para) ==
                   /\ r.paras[1][k].name = para.order[k]
                   /\ LET want == ValueLines(ValOf(para, para.order[k])) IN
                      \/ r.paras[1][k].lines = want
-                     \/ (want[1] # <<>> /\ want[1][1] \in BlankSet /\ r.paras[1][k].lines = <<<<>>>> \o want)
+                     \/ (want[1] # <<>> /\ want[1][1] \in SpaceSet /\ r.paras[1][k].lines = <<<<>>>> \o want)
 
 \* ---- RefRender: paragraph model -> bytes (generators) ---------------------
 \* model field = [name, first (bytes), conts (Seq(bytes), already with marker)]
@@ -168,10 +168,10 @@ ImplWriteValuePinned(v) ==
 
 \* after the fix: one trailing newline is not content; every further line is
 \* written with a leading space, an empty line as " ."; a first line that is
-\* indented starts on the next line (the reader trims the field's own line)
+\* begins with white space of any kind starts on the next line (the reader trims the field's own line)
 ImplWriteValue(v) ==
     LET ls0 == ValueLines(v)
-        ls == IF ls0[1] # <<>> /\ ls0[1][1] \in BlankSet THEN <<<<>>>> \o ls0 ELSE ls0
+        ls == IF ls0[1] # <<>> /\ ls0[1][1] \in SpaceSet THEN <<<<>>>> \o ls0 ELSE ls0
     IN ls[1] \o Concat([k \in 1..(Len(ls) - 1) |->
                         <<LF, SP>> \o (IF ls[k + 1] = <<>> THEN <<DOT>> ELSE ls[k + 1])])
 
